@@ -14,4 +14,5 @@ func init() {
 	sched.OnRunStart = vsync.VerifNewExecution
 	syncShimInstalled = true
 	syncShimOps = func() int64 { return vsync.VerifOps.Load() }
+	syncShimRealWaiters = func() int64 { return vsync.VerifRealWaiters.Load() }
 }
